@@ -335,7 +335,8 @@ def _sac_setup(ctx, i, real_policy=False):
         cfg = next(c for c in cfgs if c["gamma"] > 0)
         env, N, cap, bs, gamma, pf = cfg["env"], cfg["N"], cfg["cap"], cfg["bs"], cfg["gamma"], cfg["pf"]
     buf = _fill(ctx, env, N, i, cap=cap)
-    alpha = float(ctx.rng.choice([0.05, 0.2, 1.0, 3.0]))
+    # the whole range of temperatures, including ones far outside what autotuning usually reaches
+    alpha = float(ctx.rng.choice([0.05, 0.2, 1.0, 3.0, 1e-3, 3e-3, 20.0, 1e-4, 100.0]))
     algo = SAC(buffer_size=cap, batch_size=bs, gamma=gamma, learning_starts=1, num_envs=1, num_steps=1,
                q_width_size=8, q_depth=1, initial_alpha=0.2, policy_frequency=pf, autotune=cfg["autotune"],
                q_lr=1e-2, policy_lr=1e-2)
@@ -647,7 +648,7 @@ def u_sac_iteration(ctx):
             env = TimeLimit(FiniteMDP(tb_["P"], tb_["R"], tb_["term"], tb_["starts"], kind="box", box_dim=bd_, low=-1.0, high=2.0,
                                       obs_kind="onehot_t"), tl_)
             gamma = float(ctx.rng.choice([0.5, 0.9, 0.99]))
-            alpha = float(ctx.rng.choice([0.05, 0.2, 1.0]))
+            alpha = float(ctx.rng.choice([0.05, 0.2, 1.0, 1e-3, 20.0]))
             E, S = int(ctx.rng.integers(1, 3)), int(ctx.rng.integers(1, 3))
             algo = SAC(buffer_size=16 * E, batch_size=4, gamma=gamma, learning_starts=4, num_envs=E, num_steps=S,
                        q_width_size=8, q_depth=1, initial_alpha=alpha, policy_frequency=2, autotune=False, q_lr=1e-2)
